@@ -466,7 +466,30 @@ def str_splitlines(s, keepends=False):
     raise HarnessError('str.splitlines not modelled')
 
 
+def str_rpartition(s, sep):
+    if not isinstance(s, SStr):
+        return s.rpartition(sep)
+    pieces = structural_split(s, sep)
+    if pieces is None:
+        raise HarnessError('rpartition on a string whose structure is not known')
+    if len(pieces) == 1:
+        return ('', '', pieces[0])
+    return (str_join(sep, pieces[:-1]), sep, pieces[-1])
+
+
+def str_partition(s, sep):
+    if not isinstance(s, SStr):
+        return s.partition(sep)
+    pieces = structural_split(s, sep)
+    if pieces is None:
+        raise HarnessError('partition on a string whose structure is not known')
+    if len(pieces) == 1:
+        return (pieces[0], '', '')
+    return (pieces[0], sep, str_join(sep, pieces[1:]))
+
+
 STR_METHODS = {
+    'rpartition': str_rpartition, 'partition': str_partition,
     'startswith': str_startswith, 'endswith': str_endswith, 'find': str_find, 'index': str_index,
     'rfind': str_rfind, 'split': str_split, 'rsplit': str_rsplit, 'rstrip': str_rstrip,
     'lstrip': str_lstrip, 'strip': str_strip, 'replace': str_replace, 'lower': str_lower,
@@ -929,3 +952,58 @@ def to_sympath(p):
             parts = parts[1:]
         return SymPath(parts, absolute)
     raise HarnessError('cannot convert %r to a path model' % (p,))
+
+
+# --------------------------------------------------------------------------- bytes (ASCII) model
+
+class SymBytes:
+    """a line of bytes backed by a symbolic ASCII string (decode/encode are the identity)"""
+    _pysym_holder = True
+
+    def __init__(self, s):
+        self.s = s
+
+    @staticmethod
+    def _arg(b):
+        if isinstance(b, bytes):
+            return b.decode('latin-1')
+        if isinstance(b, SymBytes):
+            return b.s
+        raise TypeError('a bytes-like object is required')
+
+    def startswith(self, b):
+        return str_startswith(self.s, self._arg(b)) if isinstance(self.s, SStr) else self.s.startswith(self._arg(b))
+
+    def endswith(self, b):
+        return str_endswith(self.s, self._arg(b)) if isinstance(self.s, SStr) else self.s.endswith(self._arg(b))
+
+    def __contains__(self, b):
+        r = str_contains(self.s, self._arg(b)) if isinstance(self.s, SStr) else (self._arg(b) in self.s)
+        return bool(r)
+
+    def __bool__(self):
+        return bool(slen(self.s) > 0) if isinstance(self.s, SStr) else bool(self.s)
+
+    def decode(self, *a, **k):
+        return self.s
+
+    def __repr__(self):
+        return 'SymBytes(%r)' % (self.s,)
+
+
+def posix_join(a, *p):
+    """posixpath.join on (symbolic) strings; forks on the cases the real function distinguishes"""
+    path = a
+    for b in p:
+        if not is_strlike(b):
+            raise TypeError('join() argument must be str')
+        if bool(str_startswith(b, '/')) if isinstance(b, SStr) else b.startswith('/'):
+            path = b
+        else:
+            empty = (slen(path) == 0)
+            ends = str_endswith(path, '/') if isinstance(path, SStr) else path.endswith('/')
+            if bool(empty) or bool(ends):
+                path = path + b
+            else:
+                path = path + '/' + b
+    return path
